@@ -25,7 +25,7 @@ MANIFEST = {
 }
 MODS = ["AsmjitVerif.Props.C15"]
 WRAP = "-Wl,--wrap=malloc,--wrap=realloc,--wrap=free,--wrap=mmap,--wrap=munmap,--wrap=mprotect,--wrap=shm_open," \
-       "--wrap=ftruncate,--wrap=ftruncate64,--wrap=close"
+       "--wrap=ftruncate,--wrap=ftruncate64,--wrap=close,--wrap=syscall"
 
 QUICK_WL = ["asm", "a64", "build", "comp", "jit", "jitdual", "cont", "asmretry", "asmbig", "buildbig", "compbig", "jitpools", "buildretry"]
 THOROUGH_WL = QUICK_WL
@@ -267,8 +267,7 @@ def run(res):
         "embed_label_delta expression branch, grow_buffer/embed, ArenaVector<uint32> append/reserve_additional, String::append_chars",
         "fault-tested only (not modelled): Builder/Compiler/RA internals, assembler emit paths, JitAllocator/VirtMem, ConstPool.add, ArenaHash, "
         "ArenaBitSet, ArenaPool; Compiler results judged by byte equality or by executing the code on 6 inputs",
-        "vm class = mmap/mprotect/shm_open/ftruncate through --wrap (memfd_create goes through syscall() and is not failed); "
-        "one-time probes of VirtMem run before the sweeps",
+        "vm class = mmap/mprotect/shm_open/ftruncate and memfd_create (through --wrap=syscall) ; one-time probes of VirtMem run before the sweeps",
         "vector sizes < 2^32, buffers < 16 MiB in the model",
     ]
     generate()
